@@ -111,6 +111,7 @@ func main() {
 		return
 	}
 	for _, b := range bs {
+		vlib.Progress(b.ID)
 		res.Behaviours++
 		replay(b, cfg, res)
 	}
